@@ -1166,4 +1166,178 @@ Section JobFacts.
       assert (cs2 = cs') as -> by (rewrite C2 in C; apply app_inv_head in C; congruence).
       rewrite C, F2, IC, IF, failed_of_app, !app_assoc. auto.
   Qed.
+  (* ------------------------------------------------------------------ statements used by Props/C05.v, Props/C06.v *)
+  Theorem reach_once e st0 st cs id i :
+    reach e st0 st cs -> nth_error (s_heap st) id = Some i ->
+    (forall i0, nth_error (s_heap st0) id = Some i0 -> istate i0 <> Evaluated) ->
+    (okc e id cs = [] /\ istate i <> Evaluated) \/ evaluated_by e id cs i.
+  Proof.
+    intros HR H N. apply reach_R in HR. destruct HR as (_ & _ & _ & D). specialize (D id i H).
+    destruct (nth_error (s_heap st0) id) as [i0|]; [|exact D].
+    specialize (N i0 eq_refl). destruct (istate i0); try exact D. congruence.
+  Qed.
+
+  Theorem reach_evaluated_untouched e st0 st cs id i0 :
+    reach e st0 st cs -> nth_error (s_heap st0) id = Some i0 -> istate i0 = Evaluated ->
+    nth_error (s_heap st) id = Some i0 /\ calls_of id cs = [].
+  Proof.
+    intros HR H0 Ev. apply reach_R in HR. destruct HR as (_ & Len & _ & D).
+    destruct (nth_error (s_heap st) id) as [i|] eqn:H.
+    - specialize (D id i H). rewrite H0, Ev in D. destruct D as [-> Z]. auto.
+    - apply nth_error_None in H. assert (id < length (s_heap st0)) by (apply nth_error_Some; congruence). lia.
+  Qed.
+
+  Theorem job_attempts_le_5 e st id st' r :
+    job_evaluate e st id = (st', r) ->
+    exists cs, s_calls st' = s_calls st ++ cs /\ length cs <= 5 /\ Forall (fun c => c_id c = id) cs /\
+               s_failed st' = s_failed st ++ failed_of e cs.
+  Proof.
+    intros E. destruct (job_frame e st id st' r E) as (cs & C & L & Ids & _ & _ & _ & F & _).
+    exists cs. auto.
+  Qed.
+
+  Theorem failed_log_exact e st0 st cs :
+    reach e st0 st cs ->
+    s_calls st = s_calls st0 ++ cs /\
+    s_failed st = s_failed st0 ++ map (fun c => mk_failed (c_vec c)) (filter (tr_b e) cs) /\
+    Forall (fun f => istate f = Failed /\ icosts f = [] /\ isigned f = None)
+           (map (fun c => mk_failed (c_vec c)) (filter (tr_b e) cs)).
+  Proof.
+    intros HR. destruct (reach_failed e st0 st cs HR) as [C F]. split; [exact C|]. split; [exact F|].
+    apply failed_of_states.
+  Qed.
+
+  Theorem stored_pair_after_reroll e st id i st' :
+    nth_error (s_heap st) id = Some i -> istate i <> Evaluated -> job_evaluate e st id = (st', Done) ->
+    exists pre c costs i',
+      s_calls st' = s_calls st ++ pre ++ [c] /\ all_transient e pre /\ e_obj e c = Ok costs /\
+      c_vec c = match rev pre with [] => ivec i | p :: _ => e_reroll e p end /\
+      nth_error (s_heap st') id = Some i' /\ ivec i' = c_vec c /\ icosts i' = costs /\ istate i' = Evaluated /\
+      s_failed st' = s_failed st ++ map (fun c => mk_failed (c_vec c)) pre /\
+      s_store st' = s_store st ++ [(id, i')].
+  Proof.
+    intros H NE E. destruct (job_spec e st id i st' Done H NE E) as (cs & i' & C & Hh & _ & Ch & Post).
+    destruct Post as (pre & c & costs & -> & _ & Tr & O & F & I' & S').
+    exists pre, c, costs, i'. repeat split; auto.
+    - eapply chain_last_vec; eauto.
+    - rewrite Hh. apply nth_error_upd_same. apply nth_error_Some. congruence.
+    - rewrite I'. reflexivity.
+    - rewrite I'. reflexivity.
+    - rewrite I'. reflexivity.
+  Qed.
+
+  Theorem five_failures_state e st id i st' r :
+    nth_error (s_heap st) id = Some i -> istate i <> Evaluated -> job_evaluate e st id = (st', r) ->
+    (forall j, j < 5 -> e_obj e (job_call e id (length (s_calls st)) 0 (ivec i) j) = Transient) ->
+    r = Raised5 /\
+    exists cs i', s_calls st' = s_calls st ++ cs /\ length cs = 5 /\
+      s_failed st' = s_failed st ++ map (fun c => mk_failed (c_vec c)) cs /\
+      s_store st' = s_store st /\
+      nth_error (s_heap st') id = Some i' /\ istate i' = Empty /\ icosts i' = icosts i /\
+      ivec i' = e_reroll e (job_call e id (length (s_calls st)) 0 (ivec i) 4).
+  Proof.
+    intros H NE E Tr. pose proof (five_failures_raise e st id i st' r H NE E Tr) as ->. split; [reflexivity|].
+    destruct (job_protocol e st id i st' Raised5 H NE E) as (cs & i' & C & _ & Nth & F & Hi & _ & Post).
+    destruct Post as (L & _ & Em & Co & (c4 & N4 & V) & Fo & S').
+    exists cs, i'. rewrite <- Fo. repeat split; auto. rewrite V, (Nth 4 c4 N4). reflexivity.
+  Qed.
+
+  Theorem four_failures_do_not_raise e st id i st' r costs :
+    nth_error (s_heap st) id = Some i -> istate i <> Evaluated -> job_evaluate e st id = (st', r) ->
+    (forall j, j < 4 -> e_obj e (job_call e id (length (s_calls st)) 0 (ivec i) j) = Transient) ->
+    e_obj e (job_call e id (length (s_calls st)) 0 (ivec i) 4) = Ok costs ->
+    r = Done /\ exists cs, s_calls st' = s_calls st ++ cs /\ length cs = 5.
+  Proof.
+    intros H NE E Tr O.
+    destruct (job_decided e st id i st' r 4 H NE E) as (cs & C & L & Hr); [lia|exact Tr|congruence|].
+    rewrite O in Hr. split; [exact Hr|]. exists cs. auto.
+  Qed.
+
+  Theorem fatal_propagates e st id i st' r k kd :
+    nth_error (s_heap st) id = Some i -> istate i <> Evaluated -> job_evaluate e st id = (st', r) ->
+    k < 5 ->
+    (forall j, j < k -> e_obj e (job_call e id (length (s_calls st)) 0 (ivec i) j) = Transient) ->
+    e_obj e (job_call e id (length (s_calls st)) 0 (ivec i) k) = Fatal kd ->
+    r = RaisedFatal kd /\
+    exists pre c i', s_calls st' = s_calls st ++ pre ++ [c] /\ length pre = k /\
+      c = job_call e id (length (s_calls st)) 0 (ivec i) k /\
+      s_failed st' = s_failed st ++ map (fun c => mk_failed (c_vec c)) pre /\
+      s_store st' = s_store st /\
+      nth_error (s_heap st') id = Some i' /\ istate i' = InProgress /\ ivec i' = c_vec c /\ icosts i' = icosts i.
+  Proof.
+    intros H NE E Lk Tr Fa.
+    destruct (job_decided e st id i st' r k H NE E Lk Tr) as (cs & C & L & Hr); [congruence|].
+    rewrite Fa in Hr. subst r. split; [reflexivity|].
+    destruct (job_protocol e st id i st' (RaisedFatal kd) H NE E) as (cs' & i' & C' & _ & Nth & F & Hi & _ & Post).
+    assert (cs' = cs) as -> by (rewrite C in C'; apply app_inv_head in C'; congruence).
+    destruct Post as (pre & c & -> & _ & _ & St & V & Co & Fo & S').
+    rewrite app_length in L. cbn in L.
+    exists pre, c, i'. rewrite <- Fo. repeat split; auto; try lia.
+    rewrite (Nth (length pre) c (nth_error_app_new pre c)). f_equal. lia.
+  Qed.
 End JobFacts.
+
+Arguments mkcall {T} n id att v.
+Arguments ok_b {T} e c.
+Arguments tr_b {T} e c.
+Arguments calls_of {T} id l.
+Arguments okc {T} e id l.
+Arguments failed_of {T} e l.
+Arguments all_transient {T} e l.
+Arguments job_call {T} e id n att v k.
+Arguments vec_of {T} st id.
+
+
+(* ------------------------------------------------------------------ the rational instance of round7 *)
+(* "rounded to the stored precision" as a statement about numbers: round half to even of y * 10^7,
+   divided by 10^7; it differs from y by at most half a unit of the seventh decimal *)
+From Coq Require Import QArith Qround Qabs Lqa.
+
+Definition q_rhe (q : Q) : Z :=
+  let f := Qfloor q in
+  match Qcompare (q - inject_Z f) (1 # 2) with
+  | Lt => f
+  | Gt => (f + 1)%Z
+  | Eq => if Z.even f then f else (f + 1)%Z
+  end.
+
+Definition qround7 (y : Q) : Q := inject_Z (q_rhe (y * 10000000)) / 10000000.
+Definition qsmul (maximise : bool) (x : Q) : Q := if maximise then - x else x.
+
+Lemma q_rhe_half (q : Q) : (Qabs (inject_Z (q_rhe q) - q) <= 1 # 2)%Q.
+Proof.
+  unfold q_rhe. pose proof (Qfloor_le q) as Lo. pose proof (Qlt_floor q) as Hi.
+  rewrite inject_Z_plus in Hi. change (inject_Z 1) with 1%Q in Hi.
+  apply Qabs_Qle_condition.
+  destruct (Qcompare (q - inject_Z (Qfloor q)) (1 # 2)) eqn:Cmp.
+  - apply Qeq_alt in Cmp. destruct (Z.even (Qfloor q)).
+    + split; lra.
+    + rewrite inject_Z_plus. change (inject_Z 1) with 1%Q. split; lra.
+  - apply Qlt_alt in Cmp. split; lra.
+  - apply Qgt_alt in Cmp. rewrite inject_Z_plus. change (inject_Z 1) with 1%Q. split; lra.
+Qed.
+
+Theorem qround7_precision (y : Q) : (Qabs (qround7 y - y) <= 1 # 20000000)%Q.
+Proof.
+  unfold qround7. pose proof (q_rhe_half (y * 10000000)) as H.
+  apply Qabs_Qle_condition in H. apply Qabs_Qle_condition.
+  set (k := inject_Z (q_rhe (y * 10000000))) in *.
+  assert (E : (k / 10000000 - y == (k - y * 10000000) / 10000000)%Q) by (field).
+  rewrite E. destruct H as [H1 H2]. split.
+  - apply Qle_shift_div_l; [reflexivity|]. lra.
+  - apply Qle_shift_div_r; [reflexivity|]. lra.
+Qed.
+
+(* a value that already has at most seven decimals is left unchanged *)
+Theorem qround7_fixpoint (k : Z) : (qround7 (inject_Z k / 10000000) == inject_Z k / 10000000)%Q.
+Proof.
+  unfold qround7.
+  assert (E : (inject_Z k / 10000000 * 10000000 == inject_Z k)%Q) by field.
+  assert (Fl : Qfloor (inject_Z k / 10000000 * 10000000) = k) by (rewrite (Qfloor_comp _ _ E); apply Qfloor_Z).
+  assert (F : q_rhe (inject_Z k / 10000000 * 10000000) = k).
+  { unfold q_rhe. rewrite Fl.
+    assert (C : Qcompare (inject_Z k / 10000000 * 10000000 - inject_Z k) (1 # 2) = Lt).
+    { apply (proj1 (Qlt_alt _ _)). rewrite E. lra. }
+    rewrite C. reflexivity. }
+  rewrite F. reflexivity.
+Qed.
